@@ -556,4 +556,26 @@ def grade_idempotent(repo: Repo) -> RuleRun:
 
 grade_idempotent.rule_id = "C02.GRADE-IDEMPOTENT"
 
-RULES = [set_order, progress_flag, fixpoint_schedules, copy_carries_count, no_spurious_conflict, undefined_raises, grade_before_write, det_sources, neighbour_symmetry, axis_length, grade_idempotent]
+def coincidence_symmetry(repo: Repo) -> RuleRun:
+    """'every family of block edges that must share a count (... joined transitively through shared edges)': which wires are the same edge - the same two vertex OBJECTS in either order, all four wires of an axis looked at; the duplicated vertices of a merged interface keep the two sides in separate families. Same rule as C01.COINCIDENCE-SYMMETRY."""
+    from ..report import rebrand
+    from . import c01
+
+    return rebrand(c01.coincidence_symmetry(repo), PROP, "C02.COINCIDENCE-SYMMETRY")
+
+
+coincidence_symmetry.rule_id = "C02.COINCIDENCE-SYMMETRY"
+
+
+def clear_complete(repo: Repo) -> RuleRun:
+    """'If some family has no chop, writing fails with an undefined-grading error' - on every write of the same mesh: clear() / backport() keep the set of deleted operations, so a family that lost its chopped block does not get it back on re-assembly. Same rule as C12.CLEAR-COMPLETE."""
+    from ..report import rebrand
+    from . import c12
+
+    return rebrand(c12.clear_complete(repo), PROP, "C02.CLEAR-COMPLETE")
+
+
+clear_complete.rule_id = "C02.CLEAR-COMPLETE"
+
+
+RULES = [set_order, progress_flag, fixpoint_schedules, copy_carries_count, no_spurious_conflict, undefined_raises, grade_before_write, det_sources, neighbour_symmetry, axis_length, grade_idempotent, coincidence_symmetry, clear_complete]
